@@ -1451,6 +1451,13 @@ func (w *valWorld) genJobConfig(k int, bad bool) *execution.JobConfig {
 	if rng.Intn(4) == 0 {
 		jc.Spec.Template.Labels = map[string]string{"team": "x"}
 		jc.Spec.Template.Annotations = map[string]string{"note": "y"}
+		if rng.Intn(2) == 0 {
+			// a template pasted from an existing Job carries the controller-managed keys with stale
+			// values (template metadata is not validated): the instantiated Job must still carry its own
+			jc.Spec.Template.Labels["execution.furiko.io/job-config-uid"] = "stale-uid-of-another-jobconfig"
+			jc.Spec.Template.Annotations["execution.furiko.io/schedule-time"] = "1600000000"
+			w.c.Count("jobconfig.template-with-reserved-keys")
+		}
 	}
 	jc.Spec.Concurrency.Policy = vpick(rng, execution.ConcurrencyPolicyAllow, execution.ConcurrencyPolicyForbid, execution.ConcurrencyPolicyEnqueue)
 	if defect() {
